@@ -182,7 +182,7 @@ CHECKS = {
         "level": "other",
         "ref": "DESIGN.md §5 C14",
         "technique": 'ordering/must-pass-through and provenance rules on every hand-off of layout (path simulation), finite tables for configuration wiring',
-        "text": 'Decides each hand-off of layout in the LR parser: tried only without a token and in the layout state, stored before the retry, restored after the re-lex that follows a reduce, reset after a shift, whitespace skipper slice/position, builders store it on the right node, layout parser returns an input slice, AUGL lookup and skip_ws && !has_layout. Partial: not the round trip itself. Late additions: after a reduction the older layout is put back only when the second fetch found none (C14-R2), the retry accumulates layout and layout is not tried after tokens only (C14-R1; two known findings).',
+        "text": 'Decides each hand-off of layout in the LR parser: tried only without a token and in the layout state, stored before the retry, restored after the re-lex that follows a reduce, reset after a shift, whitespace skipper slice/position, builders store it on the right node, layout parser returns an input slice, AUGL lookup and skip_ws && !has_layout. Partial: not the round trip itself. Late additions: after a reduction the older layout is put back only when the second fetch found none (C14-R2), the retry accumulates layout and layout is not tried after tokens only (C14-R1; two known findings). C14-R7: TreeBuilder::get_result returns the node pushed last by this parse (shares C02-R4).',
         "note": 'Trusted: rustc MIR; GLR trees drop layout by design (property stated for LR).',
     },
     "C03": {
